@@ -29,6 +29,8 @@ type verifBalIn struct {
 	fixedGens   bool
 	adopted     bool // generations were set by the harness (later rounds)
 	nextGen     int32
+	gensChosen  bool
+	gens0       []int32 // first-round generations
 	genOverride []int32 // fixed per-member generations for the first round
 }
 
@@ -73,6 +75,11 @@ func (in *verifBalIn) memberIndex(id string) int {
 // topics map) and each member's subscription (nonEmptySubs: at least one topic;
 // extraSub: m0 may also subscribe to a topic missing from the topic set).
 func verifBalShape(minM, maxM int, maxParts []int, revOrder, extraSub, nonEmptySubs bool) *verifBalIn {
+	return verifBalShapeN(minM, maxM, make([]int, len(maxParts)), maxParts, revOrder, extraSub, nonEmptySubs)
+}
+
+// verifBalShapeN: topic i has minParts[i]..maxParts[i] partitions.
+func verifBalShapeN(minM, maxM int, minParts, maxParts []int, revOrder, extraSub, nonEmptySubs bool) *verifBalIn {
 	in := &verifBalIn{topics: make(map[string]int32)}
 	in.nMembers = minM + verifBalPick(maxM-minM+1)
 	nTopics := len(maxParts)
@@ -83,7 +90,7 @@ func verifBalShape(minM, maxM int, maxParts []int, revOrder, extraSub, nonEmptyS
 			j = nTopics - 1 - i
 		}
 		t := verifBalTopicNames[j]
-		in.topics[t] = int32(verifBalPick(maxParts[j] + 1))
+		in.topics[t] = int32(minParts[j] + verifBalPick(maxParts[j]-minParts[j]+1))
 		in.order = append(in.order, t)
 	}
 	in.subs = make([][]string, in.nMembers)
@@ -154,9 +161,6 @@ func (in *verifBalIn) verifBalOwnerClaims(conflicts bool) {
 }
 
 func (in *verifBalIn) verifBalGen(m int) int32 {
-	if in.adopted {
-		return in.nextGen
-	}
 	if in.genOverride != nil {
 		return in.genOverride[m]
 	}
@@ -201,7 +205,15 @@ func verifBalCloneClaims(c map[string][]int32) map[string][]int32 {
 func (in *verifBalIn) joinMembers(bal GroupBalancer) []kmsg.JoinGroupResponseMember {
 	var members []kmsg.JoinGroupResponseMember
 	for m := 0; m < in.nMembers; m++ {
-		in.gens[m] = in.verifBalGen(m)
+		switch {
+		case in.adopted:
+			in.gens[m] = in.nextGen
+		case !in.gensChosen:
+			in.gens[m] = in.verifBalGen(m)
+			in.gens0 = append(in.gens0, in.gens[m])
+		default:
+			in.gens[m] = in.gens0[m]
+		}
 		md := bal.JoinGroupMetadata(append([]string(nil), in.subs[m]...), verifBalCloneClaims(in.claims[m]), in.gens[m])
 		if in.racks[m] != "" {
 			var meta kmsg.ConsumerMemberMetadata
@@ -223,6 +235,7 @@ func (in *verifBalIn) joinMembers(bal GroupBalancer) []kmsg.JoinGroupResponseMem
 		jm.ProtocolMetadata = md
 		members = append(members, jm)
 	}
+	in.gensChosen = true // choices / symbolic inputs are made once; repeats reuse them
 	return members
 }
 
